@@ -4,7 +4,7 @@
    proofs/SortPivot.v, proofs/UniqueProofs.v, and Print Assumptions.
    Model: models/Sort.v (introsort of sortx/zfuncversion.go over the two slices, with
    Less/Swap as the only accesses, a Less counter and explicit fuel), models/Unique.v. *)
-From Got Require Import Base Sort Unique SortProofs SortSorted SortPivot UniqueProofs.
+From Got Require Import Base Sort Unique SortProofs SortSorted SortPivot UniqueProofs SortSeq SortSeqProofs.
 Require Import Permutation Sorted.
 Local Open Scope Z_scope.
 
@@ -150,6 +150,104 @@ Proof.
              keys vals s' (@dopivot_partition K V less (proj1 H) (proj1 (proj2 H)))).
 Qed.
 Print Assumptions c15_sliceby_sorted.
+
+(* ---------- calls that share something: sequences on one backing array, nested calls ----------
+   (models/SortSeq.v)  "State left behind by an earlier call must not influence a later call."
+   SliceBy has no state of its own (no package-level variable; swappers and lessSwap are locals),
+   so the model is a pure function of (keys, values, less) and every theorem above already
+   quantifies over every call, in whatever situation it is made.  What the sequence / nested /
+   concurrent streams of vlib/c15.py rely on is stated explicitly here:
+   * srt_store / srt_store_call / srt_run_calls: calls on sub-slices keys[ko:ko+nk], values[vo:vo+nv]
+     of ONE pair of backing arrays, threaded through a sequence (re-slicing within capacity);
+   * a less that itself calls SliceBy on other slices is, in the model, a less function like any
+     other (the theorems above hold for ANY less): srt_less_nested;
+   * concurrent calls on private data: there is nothing shared in the model, each call is the
+     same pure function; no interleaving semantics is modelled for C15 (the stream compares each
+     goroutine's result with the sequential model answer). *)
+
+(* a call on sub-slices that lie inside the backing arrays never panics; the two slices are
+   replaced by the result of the STAND-ALONE SliceBy on their contents (so all theorems above
+   apply to it), the number of less calls is that of the stand-alone call *)
+Theorem c15_store_call_is_standalone_call :
+  forall (st : srt_store) (c : srt_call),
+    srt_call_in_bounds (length (sto_keys st)) (length (sto_vals st)) c = true ->
+    exists s,
+      srt_sliceby (srt_less_mode2 (stc_mode c)) (srt_call_keys st c) (srt_call_vals st c) = SOk s /\
+      length (st_keys s) = stc_nk c /\ length (st_vals s) = stc_nv c /\
+      srt_store_call st c =
+        SOk (StoMk (srt_splice (sto_keys st) (stc_ko c) (st_keys s))
+                   (srt_splice (sto_vals st) (stc_vo c) (st_vals s)), st_cmp s).
+Proof. exact srt_store_call_spec. Qed.
+Print Assumptions c15_store_call_is_standalone_call.
+
+(* ... and everything outside the two slices (before them, after them up to the capacity of the
+   backing arrays) is untouched; the arrays keep their lengths *)
+Theorem c15_store_call_frame :
+  forall (st : srt_store) (c : srt_call) st' n,
+    srt_call_in_bounds (length (sto_keys st)) (length (sto_vals st)) c = true ->
+    srt_store_call st c = SOk (st', n) ->
+    length (sto_keys st') = length (sto_keys st) /\ length (sto_vals st') = length (sto_vals st) /\
+    firstn (stc_ko c) (sto_keys st') = firstn (stc_ko c) (sto_keys st) /\
+    skipn (stc_ko c + stc_nk c) (sto_keys st') = skipn (stc_ko c + stc_nk c) (sto_keys st) /\
+    firstn (stc_vo c) (sto_vals st') = firstn (stc_vo c) (sto_vals st) /\
+    skipn (stc_vo c + stc_nv c) (sto_vals st') = skipn (stc_vo c + stc_nv c) (sto_vals st).
+Proof. exact srt_store_call_frame. Qed.
+Print Assumptions c15_store_call_frame.
+
+(* HISTORY INDEPENDENCE: the result of a call is a function of that call's keys, values and less
+   only.  Two stores -- two histories of earlier calls, two capacities, two contents outside the
+   slices -- on which the call sees the same keys and values: it returns normally on both, makes
+   the same number of less calls and leaves the same contents in its two slices *)
+Theorem c15_sliceby_history_independent :
+  forall (st1 st2 : srt_store) (c : srt_call),
+    srt_call_in_bounds (length (sto_keys st1)) (length (sto_vals st1)) c = true ->
+    srt_call_in_bounds (length (sto_keys st2)) (length (sto_vals st2)) c = true ->
+    srt_call_keys st1 c = srt_call_keys st2 c ->
+    srt_call_vals st1 c = srt_call_vals st2 c ->
+    exists st1' st2' n,
+      srt_store_call st1 c = SOk (st1', n) /\ srt_store_call st2 c = SOk (st2', n) /\
+      srt_slice (sto_keys st1') (stc_ko c) (stc_nk c) = srt_slice (sto_keys st2') (stc_ko c) (stc_nk c) /\
+      srt_slice (sto_vals st1') (stc_vo c) (stc_nv c) = srt_slice (sto_vals st2') (stc_vo c) (stc_nv c).
+Proof. exact srt_store_call_history_independent. Qed.
+Print Assumptions c15_sliceby_history_independent.
+
+(* sequences: if every call's slice expressions are inside the backing arrays, no call of the
+   sequence panics or runs out of fuel; the call at position |pre| is the stand-alone store
+   call on the store the earlier calls left (same array lengths) *)
+Theorem c15_call_sequence :
+  forall (st : srt_store) (pre post : list srt_call) (c : srt_call),
+    forallb (srt_call_in_bounds (length (sto_keys st)) (length (sto_vals st))) (pre ++ c :: post) = true ->
+    (length (srt_run_calls st (pre ++ c :: post)) = length (pre ++ c :: post) /\
+     forallb srt_res_ok (srt_run_calls st (pre ++ c :: post)) = true) /\
+    exists st_i,
+      nth_error (srt_run_calls st (pre ++ c :: post)) (length pre) = Some (srt_store_call st_i c) /\
+      length (sto_keys st_i) = length (sto_keys st) /\ length (sto_vals st_i) = length (sto_vals st).
+Proof.
+  exact (fun st pre post c H =>
+           conj (srt_run_calls_no_panic (pre ++ c :: post) st H)
+                (srt_run_calls_app st pre c post
+                   (proj1 (proj1 (andb_true_iff _ _) (eq_ind _ (fun b => b = true) H _ (forallb_app _ pre (c :: post))))))).
+Qed.
+Print Assumptions c15_call_sequence.
+
+(* a less that decides x < y by calling SliceBy on a private two-element slice IS x < y, hence a
+   strict weak order: c15_sliceby_sorted applies to the outer call made with it *)
+Theorem c15_nested_less :
+  (forall x y, srt_less_nested 0 x y = (x <? y)) /\ c15_strict_weak_order (srt_less_nested 0).
+Proof. exact (conj srt_less_nested0_ltb srt_less_nested0_swo). Qed.
+Print Assumptions c15_nested_less.
+
+(* non-vacuity: three calls on one store of capacity 6: a 3-prefix, then the whole array with a
+   shifted value slice, then an overwritten middle slice sorted descending *)
+Example c15_store_nonvacuous :
+  map (fun r => match r with SOk (st, n) => (sto_keys st, sto_vals st, n) | _ => ([], [], 0%N) end)
+      (srt_run_calls (StoMk [5; 4; 3; 2; 1; 0] [10; 11; 12; 13; 14; 15])
+         [StcMk 0 0 3 0 3 None; StcMk 0 0 6 1 4 None;
+          StcMk 1 2 3 0 6 (Some ([7; 8; 9], [0; 1; 2; 3; 4; 5]))]) =
+  [([3; 4; 5; 2; 1; 0], [12; 11; 10; 13; 14; 15], 3%N);
+   ([2; 3; 4; 5; 1; 0], [12; 14; 11; 10; 13; 15], 5%N);
+   ([2; 3; 9; 8; 7; 0], [2; 1; 0; 3; 4; 5], 3%N)].
+Proof. reflexivity. Qed.
 
 (* ---------- Unique ---------- *)
 
